@@ -1,6 +1,7 @@
 mod adict;
 mod connrec;
 mod image;
+mod parsecases;
 mod dictops;
 mod gen;
 mod proj;
@@ -39,6 +40,9 @@ fn main() {
         "truncate" => image::truncate(&a),
         "image-write" => image::image_write(&a),
         "image-sessions" => image::image_sessions(&a),
+        "parse-cases" => parsecases::parse_cases(&a),
+        "fuzz-build" => parsecases::fuzz_build(&a),
+        "record-lex" => parsecases::record_lex(&a),
         "record-dict" => dictops::record(&a),
         "replay-dict" => dictops::replay(&a),
         _ => {
